@@ -90,6 +90,7 @@ func openSession(repo, vdir, tier string, seed int) (*session, error) {
 		return nil, err
 	}
 	m := newMachine(ld.prog, ld.pkg, cf, pre)
+	m.evalInit()
 	smt, err := newSMT(pre, tier, seed)
 	if err != nil {
 		return nil, err
